@@ -604,15 +604,17 @@ class convert_to_dot_bracket:
     # (the LpProblem fields are written on the new problem object only; they are declared here instead of being framed in the
     # loops, because frame facts over the nested constraint lists are array-of-array equalities that slow every later proof)
     modifies = ["LpVariable.varValue"] + _PROB_FIELDS
-    ensures = _ENS + ["implies(is_none(solver) or RAISED or (SOLVED and STATUS != 1), VIA_FCFS)"]
+    ensures = _ENS + ["implies(is_none(solver) or (ATTEMPTED and not SOLVED) or (SOLVED and STATUS != 1), VIA_FCFS)"]
     ensures_labels = {**_ENS_LABELS, 4: "fcfs-when-no-optimum"}
     locals = {"graph": "dict[int,set[int]]", "variables": "list[LpVariable]", "vars_by_region": "dict[int,list[LpVariable]]",
               "vars_by_order": "dict[int,list[LpVariable]]", "var_by_region_order": "dict[tuple[int,int],LpVariable]",
               "region_by_var": "dict[LpVariable,tuple[int,int,int]]", "terms": "list[rec[LpMono]]"}
     defaultdicts = ["graph", "vars_by_region", "vars_by_order"]
     # ghost results: what happened inside (set by the ghost blocks below)
-    ghost_returns = {"RAISED": "bool", "SOLVED": "bool", "STATUS": "int", "VIA_FCFS": "bool"}
-    ghost_entry = ["let RAISED = False", "let SOLVED = False", "let STATUS = 0", "let VIA_FCFS = False", "mark ENTRY"]
+    #   ATTEMPTED: problem.solve was called; SOLVED: it returned (did not raise); STATUS: the status it set; VIA_FCFS: the exit
+    #   taken is a `return self.fcfs`
+    ghost_returns = {"ATTEMPTED": "bool", "SOLVED": "bool", "STATUS": "int", "VIA_FCFS": "bool"}
+    ghost_entry = ["let ATTEMPTED = False", "let SOLVED = False", "let STATUS = 0", "let VIA_FCFS = False", "mark ENTRY"]
     loops = {
         # for i, j in itertools.combinations(range(len(regions)), 2)
         0: {"index": "c0", "inv": ["graph_ok(graph, regions)", "graph_upto(graph, regions, combinations_pos, c0)",
@@ -693,7 +695,7 @@ class convert_to_dot_bracket:
         {"when": "after", "at": "problem.solve(solver)", "label": "solved",
          "do": ["let SOLVED = True", "let STATUS = P0.status", "use esum_definition(P0)",
                 "assert all_integer(P0)"]},
-        {"when": "before", "at": "logging.warning('POA: failed", "label": "solver-raised", "do": ["let RAISED = True"]},
+        {"when": "before", "at": "problem.solve(solver)", "label": "solve-called", "do": ["let ATTEMPTED = True"]},
         {"when": "before", "at": "i, order = map(", "label": "parse-name",
          "do": ["let VI = GI[ident(variable)]", "let VJ = GJ[ident(variable)]", "assert parses_as(name, VI, VJ)",
                 # the parsing statement is checked against the facts about this one name only: every quantified hypothesis
@@ -740,8 +742,12 @@ class dot_bracket:
     returns = "DotBracket"
     raises = []
     modifies = ["LpSolver.msg", "LpVariable.varValue"] + _PROB_FIELDS
-    ensures = _ENS
-    ensures_labels = _ENS_LABELS
+    # `solver` below is the local variable: the solver object that was selected, or None
+    ensures = _ENS + ["implies(is_none(solver) or (ATTEMPTED and not SOLVED) or (SOLVED and STATUS != 1), VIA_FCFS)"]
+    ensures_labels = {**_ENS_LABELS, 4: "fcfs-when-no-optimum"}
+    ghost_returns = {"ATTEMPTED": "bool", "SOLVED": "bool", "STATUS": "int", "VIA_FCFS": "bool"}
+    ghost_exit = ["let ATTEMPTED = convert_to_dot_bracket_ATTEMPTED", "let SOLVED = convert_to_dot_bracket_SOLVED",
+                  "let STATUS = convert_to_dot_bracket_STATUS", "let VIA_FCFS = convert_to_dot_bracket_VIA_FCFS"]
 
 
 CONTRACTS = dict(common_c.CONTRACTS)
